@@ -117,6 +117,34 @@ impl Clone for ValTok {
     }
 }
 
+/// what the map harness needs of a value type: ValTok counts its drops, PlainVal has no drop glue at all
+/// (CaoHashMap consults needs_drop::<K>() / needs_drop::<V>() separately)
+trait ValLike: Clone + 'static {
+    const TRACKED: bool;
+    fn make(id: u64, l: &L) -> Self;
+    fn id(&self) -> u64;
+}
+impl ValLike for ValTok {
+    const TRACKED: bool = true;
+    fn make(id: u64, l: &L) -> Self {
+        ValTok::new(id, l)
+    }
+    fn id(&self) -> u64 {
+        self.id
+    }
+}
+#[derive(Clone, Copy)]
+struct PlainVal(u64);
+impl ValLike for PlainVal {
+    const TRACKED: bool = false;
+    fn make(id: u64, _l: &L) -> Self {
+        PlainVal(id)
+    }
+    fn id(&self) -> u64 {
+        self.0
+    }
+}
+
 // ------------------------------------------------------------------ key profiles
 /// hash a CaoHashMap would compute for an i64 key (insert returns it)
 fn hm_hash(k: i64) -> u64 {
@@ -271,9 +299,9 @@ fn obj_or_empty(m: Map<String, J>) -> J {
 }
 
 // ------------------------------------------------------------------ CaoHashMap
-struct Hm {
-    m: Option<CaoHashMap<KeyTok, ValTok, FailAlloc>>,
-    cl: Option<CaoHashMap<KeyTok, ValTok, FailAlloc>>,
+struct Hm<V: ValLike> {
+    m: Option<CaoHashMap<KeyTok, V, FailAlloc>>,
+    cl: Option<CaoHashMap<KeyTok, V, FailAlloc>>,
     alloc: FailAlloc,
     l: L,
     keys: Vec<i64>,
@@ -281,15 +309,15 @@ struct Hm {
     nextv: u64,
 }
 
-fn hm_contents(m: &CaoHashMap<KeyTok, ValTok, FailAlloc>, keys: &[i64], nkeys: usize, l: &L) -> Result<J, J> {
+fn hm_contents<V: ValLike>(m: &CaoHashMap<KeyTok, V, FailAlloc>, keys: &[i64], nkeys: usize, l: &L) -> Result<J, J> {
     // by iteration
-    let mut by_iter: Vec<(usize, u64)> = m.iter().map(|(k, v)| (k.idx, v.id)).collect();
+    let mut by_iter: Vec<(usize, u64)> = m.iter().map(|(k, v)| (k.idx, v.id())).collect();
     by_iter.sort();
     // by lookup of every model key
     let mut by_get: Vec<(usize, u64)> = vec![];
     for i in 0..nkeys {
         let probe = KeyTok::new(i, keys[i], l);
-        let g = m.get(&probe).map(|v| v.id);
+        let g = m.get(&probe).map(|v| v.id());
         let c = m.contains(&probe);
         if g.is_some() != c {
             return Err(json!({"inconsistent": "get/contains disagree", "key": key_name(i)}));
@@ -308,7 +336,7 @@ fn hm_contents(m: &CaoHashMap<KeyTok, ValTok, FailAlloc>, keys: &[i64], nkeys: u
     Ok(obj_or_empty(o))
 }
 
-impl Hm {
+impl<V: ValLike> Hm<V> {
     fn proj(&self) -> J {
         let m = match hm_contents(self.m.as_ref().unwrap(), &self.keys, self.nkeys, &self.l) {
             Ok(m) => m,
@@ -325,7 +353,18 @@ impl Hm {
         if l.over_dropped {
             return json!({"inconsistent": "an object was dropped more often than it was created"});
         }
-        let outv: Vec<i64> = (1..self.nextv).map(|v| l.vals.get(&v).copied().unwrap_or(0)).collect();
+        let outv: Vec<i64> = if V::TRACKED {
+            (1..self.nextv).map(|v| l.vals.get(&v).copied().unwrap_or(0)).collect()
+        } else {
+            // plain values have no drop to count: the holders are read off the maps
+            let mut held: BTreeMap<u64, i64> = BTreeMap::new();
+            for mm in [self.m.as_ref(), self.cl.as_ref()].into_iter().flatten() {
+                for (_, v) in mm.iter() {
+                    *held.entry(v.id()).or_insert(0) += 1;
+                }
+            }
+            (1..self.nextv).map(|v| held.get(&v).copied().unwrap_or(0)).collect()
+        };
         let mut outk = Map::new();
         for i in 0..self.nkeys {
             outk.insert(key_name(i), json!(l.keys.get(&i).copied().unwrap_or(0)));
@@ -334,7 +373,7 @@ impl Hm {
     }
 }
 
-impl Sut for Hm {
+impl<V: ValLike> Sut for Hm<V> {
     fn exec(&mut self, op: &J) -> J {
         let name = op["op"].as_str().unwrap();
         let kname = op["k"].as_str().unwrap_or("-");
@@ -352,7 +391,7 @@ impl Sut for Hm {
                     let i = key_index(kname);
                     KeyTok::new(i, self.keys[i], &self.l)
                 };
-                let v = ValTok::new(self.nextv, &self.l);
+                let v = V::make(self.nextv, &self.l);
                 self.nextv += 1;
                 (map.insert(k, v).is_ok(), vec![])
             }
@@ -362,7 +401,7 @@ impl Sut for Hm {
                     KeyTok::new(i, self.keys[i], &self.l)
                 };
                 match map.remove(&k) {
-                    Some(v) => (true, vec![v.id]),
+                    Some(v) => (true, vec![v.id()]),
                     None => (false, vec![]),
                 }
             }
@@ -372,7 +411,7 @@ impl Sut for Hm {
                     KeyTok::new(i, self.keys[i], &self.l)
                 };
                 match map.get(&k) {
-                    Some(v) => (true, vec![v.id]),
+                    Some(v) => (true, vec![v.id()]),
                     None => (false, vec![]),
                 }
             }
@@ -390,8 +429,8 @@ impl Sut for Hm {
                 };
                 match map.get_mut(&k) {
                     Some(r) => {
-                        let old = r.id;
-                        *r = ValTok::new(self.nextv, &self.l);
+                        let old = r.id();
+                        *r = V::make(self.nextv, &self.l);
                         self.nextv += 1;
                         (true, vec![old])
                     }
@@ -408,11 +447,11 @@ impl Sut for Hm {
                 match map.entry(k) {
                     Ok(e) => {
                         let r = e.or_insert_with(|| {
-                            let v = ValTok::new(*nextv, &l);
+                            let v = V::make(*nextv, &l);
                             *nextv += 1;
                             v
                         });
-                        (true, vec![r.id])
+                        (true, vec![r.id()])
                     }
                     Err(_) => (false, vec![]),
                 }
@@ -604,7 +643,8 @@ impl Sut for Ht {
 }
 
 pub fn make(kind: &str, cap0: usize, profile: usize, nkeys: usize) -> Box<dyn Sut> {
-    make_with(kind, cap0, profile_keys(kind, cap0, profile), nkeys)
+    // "hmp" = CaoHashMap with plain (drop-free) values: same keys as "hm"
+    make_with(kind, cap0, profile_keys(if kind == "hmp" { "hm" } else { kind }, cap0, profile), nkeys)
 }
 
 // ------------------------------------------------------------------ CaoLangTable driven as a plain map (slot-level cases)
@@ -726,7 +766,16 @@ pub fn make_with(kind: &str, cap0: usize, reals: Vec<i64>, nkeys: usize) -> Box<
     let alloc = FailAlloc::default();
     let l: L = Default::default();
     match kind {
-        "hm" => Box::new(Hm {
+        "hmp" => Box::new(Hm::<PlainVal> {
+            m: Some(CaoHashMap::with_capacity_in(cap0, alloc.clone()).expect("with_capacity_in")),
+            cl: None,
+            alloc,
+            l,
+            keys: reals,
+            nkeys,
+            nextv: 1,
+        }),
+        "hm" => Box::new(Hm::<ValTok> {
             m: Some(CaoHashMap::with_capacity_in(cap0, alloc.clone()).expect("with_capacity_in")),
             cl: None,
             alloc,
@@ -757,7 +806,7 @@ pub fn replay_case(case: &J) -> J {
         // a case of the slot-level model (OpenAddrGen): the real keys realise the residues the model chose
         let modulus = case["mod"].as_u64().expect("mod") as usize;
         let residues: Vec<usize> = (0..nkeys).map(|i| h[&key_name(i)].as_u64().expect("residue") as usize).collect();
-        let reals = residue_keys(&kind, modulus, &residues);
+        let reals = residue_keys(if kind == "hmp" { "hm" } else { &kind }, modulus, &residues);
         let k = kind.clone();
         return replay_generic(case, &move |c: &J| make_with(&k, c["init"].as_u64().unwrap() as usize, reals.clone(), nkeys));
     }
